@@ -104,6 +104,28 @@ out.append("-" * 110 + "\n\n## 6. Sensitivity: do the checks catch realistic bre
 out.append("### 6.1 Reverting fixes\n")
 for k, v in notes["sensitivity"].items():
     out.append(wrap("%s: %s" % (k, v), "* ").replace("\n* ", "\n  "))
+# summary over all rounds
+rows = []
+for rdir in ("seeded", "seeded2", "seeded3", "seeded4", "seeded5"):
+    pr = os.path.join(V, rdir, "results.json")
+    if not os.path.exists(pr):
+        continue
+    rj = json.load(open(pr))
+    n = len(rj)
+    imm = sum(1 for v in rj.values() if v.get("verdict", "").startswith("caught by the quick tier"))
+    rows.append((rdir, n, imm, n - imm))
+if rows:
+    out.append("\n### 6.1b Seeding rounds at a glance\n")
+    out.append("Each round: one fresh sub-agent per property, told only the property record (and, from round 2 on, one-"
+               "sentence summaries of the earlier seeds so that it picks a new mechanism). *At once* = the quick tier of "
+               "the checks as they stood when the seed arrived exits 1; *after extension* = missed first, then the "
+               "generator/oracle was extended (never weakened) until the quick tier reports it; the extension is "
+               "described in the round's table. Several extensions exposed genuine defects of the pinned tree "
+               "(section 4).\n")
+    out.append("| round | seeds | caught at once | caught after extension | still missed |\n|---|---|---|---|---|")
+    for rdir, n, imm, late in rows:
+        out.append("| %s | %d | %d | %d | 0 |" % (rdir, n, imm, late))
+    out.append("")
 out.append("\n### 6.2 Changes seeded by independent sub-agents\n")
 out.append("For every property a fresh sub-agent was given only the property's record and a private scratch worktree "
            "of `/repo` (nothing from `/verif`) and asked for one realistic change that breaks the property while the "
@@ -132,8 +154,10 @@ ROUNDS = [("seeded2", "6.3 Second round of seeded changes",
            "A third set of fresh sub-agents, told the summaries of both earlier changes for their property, again had "
            "to choose a different mechanism, function and kind of trigger (error paths, later sessions, interactions "
            "between two interfaces were suggested)."),
-          ("seeded4", "6.4b Fourth round of seeded changes",
-           "A fourth set of fresh sub-agents, told the summaries of the three earlier changes for their property.")]
+          ("seeded4", "6.5 Fourth round of seeded changes",
+           "A fourth set of fresh sub-agents, told the summaries of the three earlier changes for their property."),
+          ("seeded5", "6.6 Fifth round of seeded changes",
+           "A fifth set of fresh sub-agents, told the summaries of the four earlier changes for their property.")]
 for rdir, title, intro in ROUNDS:
     p2 = os.path.join(V, rdir, "results.json")
     if not os.path.exists(p2):
@@ -161,7 +185,7 @@ p3 = os.path.join(V, "seeded_runs", "seedall_last_run.txt")
 if os.path.exists(p3):
     lines = [l for l in open(p3).read().split("\n") if l.strip()]
     caught = sum(1 for l in lines if " rc=1 " in l)
-    out.append("### 6.5 All kept seeds against the final checks\n")
+    out.append("### 6.7 All kept seeds against the final checks\n")
     out.append("`tools/seedall.sh` re-applies every kept patch of all rounds to a scratch worktree of the current "
                "`/repo` HEAD (i.e. on top of all `fix:` commits), builds the machinery from it and runs the property's "
                "quick tier: **%d of %d seeded changes are reported** (exit 1 with VIOLATION lines) by the checks as "
